@@ -1,43 +1,45 @@
 """Per-property plans: which workloads run under which builds, the coverage floors, and how the
 evidence describes them."""
-from driver import Job, NPROC
+import os
 
-BINARY_FOR_MODE = {}
+from driver import Job, NPROC, VERIF
+
+BINARY_FOR_MODE = {"cap": "worker_alloc"}
+CORPUS = os.path.join(VERIF, "corpus")
 
 
 def aggregate(stats):
-    """Sum the numeric leaves of the workers' stats objects (lists element-wise, dicts by key)."""
+    """Sum the numeric leaves of the workers' stats objects (lists element-wise, dicts by key),
+    per job; maxima are kept as maxima."""
 
-    def add(a, b):
+    def add(a, b, key=None):
         if isinstance(b, bool):
-            return a or b
+            return bool(a) or b if key != "bfs_all_exhaustive" else (True if a is None else bool(a)) and b
         if isinstance(b, (int, float)):
+            if key in ("max_size", "systematic_max_len", "systematic_sequences"):
+                return max(a or 0, b)
             return (a or 0) + b
-        if isinstance(b, list) and all(isinstance(x, (int, float)) and not isinstance(x, bool) for x in b):
+        if isinstance(b, list) and b and all(isinstance(x, (int, float)) and not isinstance(x, bool) for x in b):
             a = a or [0] * len(b)
             if len(a) < len(b):
                 a = a + [0] * (len(b) - len(a))
             return [x + y for x, y in zip(a, b)] + a[len(b):]
+        if isinstance(b, list):
+            a = a or []
+            return (a + b)[:600]
         if isinstance(b, dict):
             a = a or {}
             for k, v in b.items():
                 if k == "samples":
                     continue
-                a[k] = add(a.get(k), v)
+                a[k] = add(a.get(k), v, k)
             return a
-        return a if a is not None else None
+        return a if a is not None else b
 
     out = {}
     for s in stats:
         key = s.get("job", "?")
         out[key] = add(out.get(key), s.get("stats", {}))
-        # maxima are not additive
-        if isinstance(s.get("stats"), dict) and "max_size" in s["stats"]:
-            out[key]["max_size"] = max(out[key].get("_max_size", 0), s["stats"]["max_size"])
-            out[key]["_max_size"] = out[key]["max_size"]
-    for v in out.values():
-        if isinstance(v, dict):
-            v.pop("_max_size", None)
     return out
 
 
@@ -45,8 +47,54 @@ def q(tier, quick, thorough):
     return quick if tier == "quick" else thorough
 
 
-def hist_job(name, kinds, profiles, ops, shards=NPROC, hashers="std,fixed", build="ubcheck", **kw):
-    return Job(name, build, "hist", {"kinds": kinds, "profiles": profiles, "ops": ops, "hashers": hashers}, shards=shards, **kw)
+# ------------------------------------------------------------------------------------------------
+# job builders
+
+
+def hist_job(name, kinds, profiles, ops, shards=NPROC, hashers="std,fixed", build="ubcheck", extra=None, **kw):
+    a = {"kinds": kinds, "profiles": profiles, "ops": ops, "hashers": hashers}
+    a.update(extra or {})
+    return Job(name, build, "hist", a, shards=shards, **kw)
+
+
+def bfs_job(name, kinds, configs, wide=0, max_states=600_000, timeout=1500):
+    n = len(configs.split(",")) * (2 if kinds == "both" else 1)
+    return Job(name, "ubcheck", "bfs", {"kinds": kinds, "configs": configs, "wide": wide, "max_states": max_states, "nshards": n}, shards=n, restartable=False, timeout=timeout)
+
+
+def iters_job(name, which, build="ubcheck", max_n=5, random=400, shards=8, extra=None, **kw):
+    a = {"which": which, "max_n": max_n, "random": random, "nshards": shards}
+    a.update(extra or {})
+    return Job(name, build, "iters", a, shards=shards, restartable=False, **kw)
+
+
+def corpus_job(name, prefixes, build="ubcheck", binary="worker", notprefix="miri-,alloc-", **kw):
+    a = {"dir": CORPUS, "prefix": prefixes}
+    if notprefix:
+        a["notprefix"] = notprefix
+    return Job(name, build, "replay", a, shards=1, restartable=True, binary=binary, **kw)
+
+
+def miri_job(name, mode, args, shards, tb=False, timeout=2400, leaks_ok=False):
+    return Job(name + ("-tb" if tb else ""), "miri", mode, args, shards=shards, tb=tb, timeout=timeout, restartable=False, miri_leaks_ok=leaks_ok)
+
+
+# ------------------------------------------------------------------------------------------------
+# floors
+
+
+def need(agg, job, path, minimum, what):
+    a = agg.get(job)
+    if a is None:
+        return ["no statistics from job %s" % job]
+    cur = a
+    for k in path:
+        cur = cur.get(k) if isinstance(cur, dict) else None
+        if cur is None:
+            return ["%s: statistic %s missing" % (job, "/".join(path))]
+    if cur < minimum:
+        return ["%s: %s = %s < %s" % (job, what, cur, minimum)]
+    return []
 
 
 def floor_hist(jobname, need_remove_cases=True, min_size=64, min_arr=1000):
@@ -74,11 +122,47 @@ def floor_hist(jobname, need_remove_cases=True, min_size=64, min_arr=1000):
     return f
 
 
+def floors(*fs):
+    def f(agg, tier):
+        out = []
+        for g in fs:
+            out.extend(g(agg, tier))
+        return out
+
+    return f
+
+
+def floor_bfs(job):
+    def f(agg, tier):
+        a = agg.get(job) or {}
+        p = []
+        if a.get("bfs_states", 0) < 500:
+            p.append("%s: only %s concrete states explored" % (job, a.get("bfs_states")))
+        if not a.get("bfs_all_exhaustive", False):
+            p.append("%s: a small-scope exploration hit its state cap (not exhaustive)" % job)
+        return p
+
+    return f
+
+
+def floor_stat(job, path, minimum, what):
+    return lambda agg, tier: need(agg, job, path, minimum, what)
+
+
+def floor_ops(job, names, minimum=1):
+    def f(agg, tier):
+        oc = (agg.get(job) or {}).get("op_counts", {})
+        return ["%s: operation %s executed %s times" % (job, n, oc.get(n, 0)) for n in names if oc.get(n, 0) < minimum]
+
+    return f
+
+
 HIST_RULE = (
-    "generated histories (profiles churn/growth/storm/bulk, seeded by VERIF_SEED) executed in lock step on the real queue and the "
+    "generated histories (seeded by VERIF_SEED; profiles named in coverage.jobs) executed in lock step on the real queue and the "
     "sequential model; after EVERY operation the hook snapshot is checked (tables, heap order), contents are compared and the lookups "
-    "probed for the whole id universe; evaluations = operations executed under the monitors; a case is non-trivial when the queue is "
-    "non-empty and distinct by (hash of heap table, slot table and (id,priority) per slot) x (operation and its arguments); "
+    "probed for a universe of ids; evaluations = operations / cases / crash points executed under the monitors, summed over jobs; a "
+    "history step is non-trivial when the queue is non-empty and distinct by (hash of heap table, slot table and (id,priority) per "
+    "slot) x (operation and its arguments); small-scope (bfs) jobs count every (concrete state, operation) pair once; "
     "distinct_nontrivial = per job the MAXIMUM over its shards of the measured set size (shards may overlap), summed over jobs"
 )
 ASSUME = [
@@ -87,32 +171,374 @@ ASSUME = [
     "verdicts cover the executions produced, not all histories",
 ]
 
+ALL_PROFILES = "churn,churn-single,growth,growth-ties,storm,bulk,bulk-small"
 PLANS = {}
+
+# ------------------------------------------------------------------------------------------------
+# C01 / C02 / C03
 
 PLANS["C01"] = {
     "level": "exploration",
     "rule": HIST_RULE,
     "assumptions": ASSUME,
     "jobs": lambda tier: [
-        hist_job("hist-pq", "pq", "churn,churn-single,growth,growth-ties,storm,bulk,bulk-small", q(tier, 120_000, 3_000_000)),
+        hist_job("hist-pq", "pq", ALL_PROFILES + ",mutate,convert", q(tier, 500_000, 12_000_000)),
+        bfs_job("bfs-pq", "pq", q(tier, "3:3,4:2,4:3", "3:3,4:2,4:3,5:2,3:5"), wide=q(tier, 0, 1)),
     ],
-    "floors": floor_hist("hist-pq"),
+    "floors": floors(floor_hist("hist-pq"), floor_bfs("bfs-pq")),
 }
 PLANS["C02"] = {
     "level": "exploration",
     "rule": HIST_RULE,
     "assumptions": ASSUME,
     "jobs": lambda tier: [
-        hist_job("hist-dpq", "dpq", "churn,churn-single,growth,growth-ties,storm,bulk,bulk-small", q(tier, 120_000, 3_000_000)),
+        hist_job("hist-dpq", "dpq", ALL_PROFILES + ",mutate,convert", q(tier, 500_000, 12_000_000)),
+        bfs_job("bfs-dpq", "dpq", q(tier, "3:3,4:2,4:3", "3:3,4:2,4:3,5:2,3:5"), wide=q(tier, 0, 1)),
     ],
-    "floors": floor_hist("hist-dpq"),
+    "floors": floors(
+        floor_hist("hist-dpq"),
+        floor_bfs("bfs-dpq"),
+        # both level parities x {crossed to the other chain, moved on its own chain, stayed}
+        lambda agg, tier: ["hist-dpq: DPQ move class %d never observed" % i for i, x in enumerate((agg.get("hist-dpq") or {}).get("dpq_moves", [0] * 6)) if x == 0],
+    ),
 }
 PLANS["C03"] = {
     "level": "exploration",
     "rule": HIST_RULE,
     "assumptions": ASSUME,
     "jobs": lambda tier: [
-        hist_job("hist-churn", "both", "churn,churn-single,bulk-small,growth-ties", q(tier, 120_000, 3_000_000)),
+        hist_job("hist-churn", "both", "churn,churn-single,bulk-small,growth-ties,payload,convert", q(tier, 500_000, 12_000_000)),
+        bfs_job("bfs-both", "both", q(tier, "3:3,4:2", "3:3,4:2,4:3,5:2"), wide=q(tier, 0, 1)),
     ],
-    "floors": floor_hist("hist-churn", min_size=32),
+    "floors": floors(floor_hist("hist-churn", min_size=32), floor_bfs("bfs-both")),
+}
+
+# ------------------------------------------------------------------------------------------------
+# C04: union workload under four detectors
+
+PLANS["C04"] = {
+    "level": "exploration",
+    "rule": HIST_RULE + "; the same workloads are repeated under ASan (+LSan), valgrind memcheck and Miri (Stacked and Tree Borrows) with smaller budgets; "
+    "a panic, an abort (std unsafe-precondition check, sanitizer, Miri) or an inconsistent table snapshot is a violation",
+    "assumptions": ASSUME + ["ASan / memcheck cannot see an index that is out of bounds but within capacity; the ubcheck build and Miri can"],
+    "jobs": lambda tier: [
+        hist_job("hist-all", "both", ALL_PROFILES + ",mutate,sorted,drainclear,capacity,convert,payload,incdec", q(tier, 400_000, 8_000_000), hashers="std,fixed,xx,brown"),
+        hist_job("hist-degenerate", "both", "churn,bulk-small,growth-ties", q(tier, 60_000, 600_000), hashers="const,low2", shards=4),
+        iters_job("iters-all", "Iter,IterRef,IntoIter,Drain,Sorted,IterMut,IterMutRef", max_n=q(tier, 4, 6), random=q(tier, 300, 3000)),
+        Job("bulk", "ubcheck", "bulk", {"cases": q(tier, 150, 1500)}, shards=4),
+        Job("serde", "ubcheck", "serde", {"len": q(tier, 3, 5), "random": q(tier, 200, 2000), "roundtrips": q(tier, 200, 2000), "nshards": 4}, shards=4, restartable=False),
+        corpus_job("corpus", ""),
+        hist_job("asan-hist", "both", ALL_PROFILES + ",mutate,drainclear,convert", q(tier, 60_000, 1_000_000), build="asan", extra={"noleak": 1}),
+        iters_job("asan-iters", "Iter,IntoIter,Drain,Sorted,IterMut", build="asan", max_n=q(tier, 3, 5), random=q(tier, 100, 1000), shards=4, extra={"noleak": 1}),
+        hist_job("memcheck-hist", "both", "churn,bulk-small,growth,mutate", q(tier, 4_000, 60_000), build="boxrel", wrap="memcheck", extra={"noleak": 1}, shards=q(tier, 8, 16), restartable=False),
+        miri_job("miri-hist", "hist", {"kinds": "both", "profiles": "churn,bulk-small,mutate,drainclear,convert", "ops": q(tier, 100, 700), "hashers": "std,fixed", "noleak": 1, "cap_universe": 7, "cap_steps": 25}, shards=q(tier, 8, 16)),
+        miri_job("miri-hist", "hist", {"kinds": "both", "profiles": "churn,bulk-small,mutate", "ops": q(tier, 100, 700), "hashers": "fixed", "noleak": 1, "cap_universe": 7, "cap_steps": 25}, shards=q(tier, 6, 16), tb=True),
+    ],
+    "floors": floors(
+        floor_hist("hist-all"),
+        floor_stat("asan-hist", ["ops"], 10_000, "operations under ASan"),
+        floor_stat("memcheck-hist", ["ops"], 1_000, "operations under memcheck"),
+        floor_stat("miri-hist", ["ops"], 500, "operations under Miri (Stacked Borrows)"),
+        floor_stat("miri-hist-tb", ["ops"], 300, "operations under Miri (Tree Borrows)"),
+    ),
+}
+
+# ------------------------------------------------------------------------------------------------
+# C05
+
+
+def cost_jobs(tier):
+    jobs = [Job("cost", "release", "cost", {"exps": q(tier, "4,8,12,16", "4,6,8,10,12,14,16,18,20"), "reps": q(tier, 40, 120), "nshards": NPROC}, shards=NPROC, restartable=False, timeout=1800)]
+    for kind in ("pq", "dpq"):
+        for n in (256, 65536):
+            for op in ("none", "change", "removepush", "poppush", "peeks"):
+                jobs.append(Job("cg-%s-%d-%s" % (kind, n, op), "release", "costprobe", {"kinds": kind, "n": n, "op": op, "ops": 2000}, shards=1, wrap="cachegrind", restartable=False, timeout=900))
+    return jobs
+
+
+def cost_post(lines, tier):
+    ir = {}
+    for l in lines:
+        if l.get("t") == "irefs":
+            a = l["args"]
+            ir[(a["kinds"], int(a["n"]), a["op"])] = l["irefs"]
+    viols, info, problems = [], {}, []
+    for kind in ("pq", "dpq"):
+        for op in ("change", "removepush", "poppush", "peeks"):
+            try:
+                small = (ir[(kind, 256, op)] - ir[(kind, 256, "none")]) / 2000.0
+                large = (ir[(kind, 65536, op)] - ir[(kind, 65536, "none")]) / 2000.0
+            except KeyError:
+                problems.append("cachegrind instruction count missing for %s %s" % (kind, op))
+                continue
+            ratio = large / max(small, 1.0)
+            info["%s/%s" % (kind, op)] = {"instr_per_op_n256": round(small, 1), "instr_per_op_n65536": round(large, 1), "ratio": round(ratio, 2)}
+            limit = 4.0 if op != "peeks" else 2.0
+            if ratio > limit:
+                viols.append({
+                    "t": "viol", "props": ["C05"], "sig": "cost/%s/%s/instructions-scaling" % (kind, op), "job": "cachegrind", "build": "release+cachegrind",
+                    "detail": "instructions per %s operation grew from %.0f at n=2^8 to %.0f at n=2^16 (x%.1f > x%.0f): not logarithmic" % (op, small, large, ratio, limit),
+                    "replay": {"mode": "costprobe", "kind": kind, "op": op},
+                })
+    return viols, {"cachegrind_instructions_per_operation": info}, problems
+
+
+PLANS["C05"] = {
+    "level": "exploration",
+    "rule": "every public call on queues of n = 2^4..2^16 (quick) / 2^20 (thorough) elements with ascending, descending, constant, few-ties and random priorities is bracketed by "
+    "callback counters (Ord::cmp, Hash, Eq); the addressed element is chosen by heap position (root, last leaf, every level) and sent above the maximum / below the minimum; "
+    "evaluations = measured calls; distinct_nontrivial = distinct (queue kind, operation, n) cells of the cost table, each holding the maximum over its calls; "
+    "bounds: single-element ops <= 8*floor(log2(n+1))+16 comparisons and max(n=2^16) <= 2.5*max(n=2^8)+4, peeks/lookups 0 (peek_max 1), rebuilds <= 8n+32; "
+    "plus cachegrind instruction counts per operation at n=2^8 vs 2^16 (ratio <= 4)",
+    "assumptions": ["constants fixed at >= 2x the worst count measured on the unchanged tree", "the asymptotic claim is decided only as explicit bounds up to the measured sizes"],
+    "jobs": cost_jobs,
+    "post": cost_post,
+    "floors": floor_stat("cost", ["calls_measured"], 5000, "measured calls"),
+}
+
+# ------------------------------------------------------------------------------------------------
+# C06
+
+PLANS["C06"] = {
+    "level": "exploration",
+    "rule": "sorted consumption: (a) iterator scripts over {next, next_back} on into_sorted_iter of queues built by push/remove/change recipes - every script up to length n+3 for "
+    "n <= max_n, random scripts up to size 300 - with the remainder kept by the oracle (next = minimum / next_back = maximum of what remains, len() before every call, "
+    "None after exhaustion); (b) into_sorted_vec / into_(a|de)scending_sorted_vec and clone().into_sorted_iter() inside generated histories (states produced by updates, "
+    "removals and bulk operations); distinct = distinct (recipe, script) cases on non-empty queues / (state, op) pairs as in the history rule",
+    "assumptions": ASSUME,
+    "jobs": lambda tier: [
+        iters_job("iters-sorted", "Sorted", max_n=q(tier, 6, 8), random=q(tier, 1500, 20000), extra={"recipes": q(tier, 4, 8), "adaptors": 0}),
+        hist_job("hist-sorted", "both", "sorted,growth-ties,churn", q(tier, 200_000, 4_000_000)),
+        corpus_job("corpus", "iters-adaptor-into_sorted"),
+    ],
+    "floors": floors(floor_stat("iters-sorted", ["iter_cases"], 2000, "sorted-iterator cases"), floor_ops("hist-sorted", ["into_sorted_iter", "into_sorted_vec"], 500)),
+}
+
+# ------------------------------------------------------------------------------------------------
+# C07
+
+PLANS["C07"] = {
+    "level": "exploration",
+    "rule": "bulk cases: receiver (size 0..200, arbitrary arrangement) x input pairs (0..500, duplicates inside the input and against the receiver) x form (extend, FromIterator, "
+    "From<Vec>, append, conversion); extend/FromIterator are repeated for every legal size_hint shape (8 ordinary shapes; in the guarded-allocator binary also upper bounds 2^40 and "
+    "usize::MAX) and the outcomes compared; every result is checked against the model, the table/order monitors and a sorted drain; evaluations = histories executed; "
+    "distinct = distinct (receiver, input, form, hint) histories with a non-empty input; both strategies of the push-versus-rebuild threshold must be predicted at least once",
+    "assumptions": ASSUME + ["the harness mirrors better_to_rebuild only to ACCOUNT coverage of both strategies, never for a verdict"],
+    "jobs": lambda tier: [
+        Job("bulk", "ubcheck", "bulk", {"cases": q(tier, 400, 6000)}, shards=NPROC),
+        Job("bulk-hugehints", "ubcheck", "bulk", {"cases": q(tier, 150, 2000), "huge": 1, "max_in": 120}, shards=8, binary="worker_alloc"),
+        hist_job("hist-bulk", "both", "bulk,bulk-small,convert", q(tier, 100_000, 2_000_000)),
+        bfs_job("bfs-both", "both", "3:3", wide=1),
+        corpus_job("corpus-alloc", "alloc-", binary="worker_alloc", notprefix=""),
+    ],
+    "floors": floors(
+        floor_stat("bulk", ["predicted_rebuild_strategy"], 50, "cases on the rebuild side of the threshold"),
+        floor_stat("bulk", ["predicted_push_strategy"], 50, "cases on the push side of the threshold"),
+        floor_stat("bulk", ["inputs_with_internal_duplicates"], 50, "inputs with duplicates"),
+        floor_stat("bulk-hugehints", ["hint_shapes", "ZeroSomeMax"], 20, "cases with upper bound usize::MAX"),
+        floor_ops("hist-bulk", ["extend", "append", "convert"], 200),
+    ),
+}
+
+# ------------------------------------------------------------------------------------------------
+# C08
+
+PLANS["C08"] = {
+    "level": "exploration",
+    "rule": HIST_RULE + "; predicates and setters are logged (ids seen, in order) and compared with the model; small-scope jobs run retain with EVERY subset kept, retain_mut "
+    "rewriting one priority with and without a removal, iter_mut with every consumed prefix and a write at every position, and both outcomes of pop_*_if with every rewrite",
+    "assumptions": ASSUME,
+    "jobs": lambda tier: [
+        hist_job("hist-mutate", "both", "mutate,bulk,bulk-small", q(tier, 300_000, 6_000_000)),
+        bfs_job("bfs-both", "both", q(tier, "3:3,4:2", "3:3,4:2,4:3,5:2"), wide=1),
+        iters_job("iters-mut", "IterMut,IterMutRef", max_n=q(tier, 5, 7), random=q(tier, 600, 6000), extra={"adaptors": 0}),
+    ],
+    "floors": floors(floor_bfs("bfs-both"), floor_ops("hist-mutate", ["retain", "retain_mut", "iter_mut", "pop_max_if", "pop_min_if"], 500), floor_stat("iters-mut", ["iter_cases"], 2000, "iter_mut cases")),
+}
+
+# ------------------------------------------------------------------------------------------------
+# C09
+
+PLANS["C09"] = {
+    "level": "exploration",
+    "rule": "iter_mut scripts over {next, next_back (where offered), len, size_hint}: every script up to length n+3 for n <= max_n, random scripts up to size 300, through "
+    "iter_mut() and `&mut queue`, consumed partially, dropped or leaked; M-ALIAS records the addresses of all yielded item / priority references (compared before anything is "
+    "written); in half of the cases every reference still held is written through after every step; the same scripts run in the release build (wrapping arithmetic) and, on "
+    "small queues, under Miri with Stacked Borrows and Tree Borrows; std adaptor len() probes (take, skip, enumerate, peekable, zip, step_by) where an exact size is declared; "
+    "distinct = distinct (queue kind, recipe, script, writes) cases on non-empty queues",
+    "assumptions": ["yielded references are used only while their iterator is alive (the scope the property states)", "Miri's aliasing models are experimental"],
+    "jobs": lambda tier: [
+        iters_job("iters-mut", "IterMut,IterMutRef", max_n=q(tier, 6, 8), random=q(tier, 2000, 30000), extra={"recipes": q(tier, 3, 6)}),
+        iters_job("iters-mut-release", "IterMut,IterMutRef", build="release", max_n=q(tier, 5, 7), random=q(tier, 1000, 10000)),
+        corpus_job("corpus", "iters-dpq-itermut,iters-adaptor-iter_mut"),
+        miri_job("miri-iters", "iters", {"which": "IterMut,IterMutRef", "max_n": q(tier, 2, 3), "random": q(tier, 4, 30), "max_size": 12, "hold": 1, "adaptors": 0, "recipes": 1, "nshards": q(tier, 8, 16)}, shards=q(tier, 8, 16)),
+        miri_job("miri-iters", "iters", {"which": "IterMut", "max_n": q(tier, 2, 3), "random": q(tier, 4, 30), "max_size": 12, "hold": 1, "adaptors": 0, "recipes": 1, "nshards": q(tier, 6, 16)}, shards=q(tier, 6, 16), tb=True),
+        Job("miri-corpus", "miri", "replay", {"dir": CORPUS, "prefix": "miri-"}, shards=1, restartable=False, timeout=1500),
+    ],
+    "floors": floors(
+        floor_stat("iters-mut", ["alias_checks"], 10_000, "address-disjointness checks"),
+        floor_stat("iters-mut", ["len_checks"], 5_000, "len() checks on an iterator declaring an exact size"),
+        floor_stat("miri-iters", ["iter_cases"], 150, "iter_mut cases under Miri (Stacked Borrows)"),
+        floor_stat("miri-iters-tb", ["iter_cases"], 100, "iter_mut cases under Miri (Tree Borrows)"),
+    ),
+}
+
+# ------------------------------------------------------------------------------------------------
+# C10
+
+FAULT_RULE = (
+    "crash-point enumeration: for sampled (state, operation) pairs the operation is first run fault-free to count its user callbacks per kind (Ord::cmp, PartialEq, Hash, Eq, Clone, "
+    "predicate/setter, feeding iterator); then for EVERY index k of every kind (evenly sampled only above 64) the state is rebuilt, a panic injected at k and caught, and a "
+    "continuation run (random operations, optionally a second fault, pops from both ends until empty, refill, removals, iter_mut, retain, drain/clear, drop); leaked drain / iter_mut "
+    "guards are cases of their own; evaluations = crash points executed; distinct = distinct (kind, state recipe, operation, callback kind, k); alarms: abort with 'unsafe "
+    "precondition(s) violated' (ubcheck), ASan / Miri report, double drop or leak in the live-object ledger"
+)
+PLANS["C10"] = {
+    "level": "fault_enumeration",
+    "rule": FAULT_RULE,
+    "assumptions": ["exhaustive over the crash points of each sampled (state, operation); states, operations and continuations are sampled", "safe panics, wrong order and wrong length after a fault are allowed by the property"],
+    "jobs": lambda tier: [
+        Job("faults", "ubcheck", "faults", {"episodes": q(tier, 500, 12_000), "max_n": 40}, shards=NPROC),
+        # leak accounting after faults is the ledger's job (exact, and aware of client-side leaks); LSan stays off here
+        Job("faults-asan", "asan", "faults", {"episodes": q(tier, 60, 1500), "max_n": 20, "noleak": 1}, shards=q(tier, 8, 16), env={"PQVERIF_NO_LSAN": "1"}),
+        corpus_job("corpus", "faults-"),
+        miri_job("miri-faults", "faults", {"episodes": q(tier, 4, 30), "max_n": 6, "per_kind": 3, "noleak": 1}, shards=q(tier, 10, 16)),
+        Job("miri-corpus", "miri", "replay", {"dir": CORPUS, "prefix": "faults-"}, shards=1, restartable=False, timeout=1500),
+    ],
+    "floors": floors(
+        floor_stat("faults", ["panics_injected_and_caught"], 20_000, "caught injected panics"),
+        floor_stat("faults", ["leaked_iterator_cases"], 5, "leaked-iterator cases"),
+        floor_stat("faults", ["by_operation", "push-new"], 200, "crash points inside push of a new item"),
+        floor_stat("faults", ["by_callback", "Cmp"], 2000, "crash points inside Ord::cmp"),
+        floor_stat("faults", ["by_callback", "Hash"], 500, "crash points inside Hash"),
+        floor_stat("miri-faults", ["panics_injected_and_caught"], 60, "caught injected panics under Miri"),
+    ),
+}
+
+# ------------------------------------------------------------------------------------------------
+# C11 / C12
+
+PLANS["C11"] = {
+    "level": "exploration",
+    "rule": HIST_RULE + "; priorities carry a tag ignored by Ord, so that 'offered priority returned, stored one untouched' is observable; offered priorities are drawn lower / equal / "
+    "higher than the stored one and aimed at chosen heap positions",
+    "assumptions": ASSUME,
+    "jobs": lambda tier: [
+        hist_job("hist-incdec", "both", "incdec,churn-single,storm", q(tier, 300_000, 6_000_000)),
+        bfs_job("bfs-both", "both", q(tier, "3:3,4:2", "3:3,4:2,4:3,5:2")),
+    ],
+    "floors": floors(floor_bfs("bfs-both"), floor_ops("hist-incdec", ["push_increase", "push_decrease"], 20_000)),
+}
+PLANS["C12"] = {
+    "level": "exploration",
+    "rule": HIST_RULE + "; items carry a payload ignored by Eq/Hash: every key argument brings a fresh payload, payloads are rewritten through get_mut / peek_*_mut / iter_mut / "
+    "pop_*_if, and every item that comes back (by reference or by value) is compared including its payload; owned and borrowed lookups run side by side",
+    "assumptions": ASSUME,
+    "jobs": lambda tier: [
+        hist_job("hist-payload", "both", "payload,churn,churn-single,bulk-small,convert", q(tier, 300_000, 6_000_000)),
+        bfs_job("bfs-both", "both", q(tier, "3:3,4:2", "3:3,4:2,4:3")),
+    ],
+    "floors": floors(floor_bfs("bfs-both"), floor_ops("hist-payload", ["get_mut", "peek_max_mut", "iter_mut", "push", "change_priority"], 1000)),
+}
+
+# ------------------------------------------------------------------------------------------------
+# C13
+
+PLANS["C13"] = {
+    "level": "exploration",
+    "rule": "iterator scripts over {next, next_back, len, size_hint} on iter, `&queue`, into_iter, drain and the sorted iterators: every script up to length n+3 for n <= max_n, "
+    "random scripts up to size 300; the declared traits (ExactSizeIterator, DoubleEndedIterator) are discovered at compile time and each type is held to what it declares; "
+    "std adaptor probes under catch_unwind: take, skip, rev, enumerate, peekable, zip, step_by, rev().take, chain, by_ref; ubcheck and release builds; distinct = distinct "
+    "(queue kind, iterator, recipe, script) cases on non-empty queues",
+    "assumptions": ["only declared traits are enforced; for other types size_hint must merely be legal"],
+    "jobs": lambda tier: [
+        iters_job("iters", "Iter,IterRef,IntoIter,Drain,Sorted", max_n=q(tier, 6, 8), random=q(tier, 2000, 30000), extra={"recipes": q(tier, 3, 6)}),
+        iters_job("iters-release", "Iter,IterRef,IntoIter,Drain,Sorted", build="release", max_n=q(tier, 5, 6), random=q(tier, 1000, 10000)),
+        hist_job("hist-observe", "both", "churn,bulk-small,sorted", q(tier, 60_000, 1_000_000), shards=8),
+        corpus_job("corpus", "iters-adaptor"),
+    ],
+    "floors": floors(
+        floor_stat("iters", ["adaptor_probes_on_exact_types"], 1000, "adaptor len() probes on exact-size types"),
+        floor_stat("iters", ["size_hint_checks"], 50_000, "size_hint checks"),
+        floor_stat("iters", ["len_checks"], 50_000, "len checks"),
+    ),
+}
+
+# ------------------------------------------------------------------------------------------------
+# C14 / C15 / C16 / C17 / C18
+
+PLANS["C14"] = {
+    "level": "exploration",
+    "rule": "equality monitor: a content set (0..64 items, ties) is realised by three of ten different routes (insertion order, extra items inserted and removed, From<Vec>, extend, "
+    "append, wrong-then-corrected priorities, with_capacity + reserve, retain from a superset, conversion from the other kind); all pairs must be == both ways and not !=; "
+    "contents differing in one priority, one missing item, one replaced item, one extra item must be != both ways; pairs across hasher TYPES; clone twin: a generated history "
+    "is applied to source and clone in lock step (identical return values and contents), then the source is mutated and the clone must not change; evaluations = equality "
+    "decisions + twin operations; distinct = distinct non-empty content sets with their routes",
+    "assumptions": ["tags / payloads are outside Eq of the user types and therefore outside queue equality"],
+    "jobs": lambda tier: [Job("eq", "ubcheck", "eq", {"cases": q(tier, 700, 20_000)}, shards=NPROC)],
+    "floors": floors(floor_stat("eq", ["cross_hasher_type_pairs"], 500, "cross-hasher pairs"), floor_stat("eq", ["clone_twin_ops"], 20_000, "clone twin operations")),
+}
+PLANS["C15"] = {
+    "level": "exploration",
+    "rule": "(a) EVERY pair sequence over 3 items x 3 priorities up to length L (quick 4, thorough 5) plus random longer ones, as JSON text and through a non-self-describing token "
+    "source with and without a length hint, for both kinds: Err is accepted, Ok(q) must have len == iter().count() == number of distinct items, priorities among those given, "
+    "consistent tables, heap order, and survive a model-checked continuation; (b) round trips of reachable states PQ->PQ, PQ->DPQ, DPQ->PQ, DPQ->DPQ through JSON and serde_test "
+    "tokens (assert_ser_tokens / assert_de_tokens) followed by a continuation; (c) serde steps inside generated histories; distinct = distinct (sequence, kind, format) inputs",
+    "assumptions": ["items serialize as their id, priorities as their ordering key"],
+    "jobs": lambda tier: [
+        Job("serde", "ubcheck", "serde", {"len": q(tier, 4, 5), "random": q(tier, 400, 6000), "roundtrips": q(tier, 300, 4000), "nshards": NPROC}, shards=NPROC, restartable=False),
+        hist_job("hist-serde", "both", "convert,churn", q(tier, 60_000, 1_000_000), shards=8),
+        corpus_job("corpus", "serde-"),
+    ],
+    "floors": floors(floor_stat("serde", ["inputs_with_repeated_items"], 5000, "inputs repeating an item"), floor_stat("serde", ["roundtrips"], 1000, "round trips"), floor_ops("hist-serde", ["serde"], 500)),
+}
+PLANS["C16"] = {
+    "level": "exploration",
+    "rule": "drain scripts over {next, next_back}: every script up to length n+3 for n <= max_n and random ones up to size 300, then drop or mem::forget; afterwards len/is_empty/"
+    "peeks/pops/iter must report emptiness, the hook tables must be empty, the live-object ledger must show every element dropped exactly once (a leaked drain may keep exactly "
+    "its un-yielded elements), and a generated continuation must return the same values on the emptied queue as on a fresh one; drain / clear steps inside generated histories; "
+    "leak patterns also under Miri; distinct = distinct (kind, recipe, script, leak) cases",
+    "assumptions": ASSUME,
+    "jobs": lambda tier: [
+        iters_job("iters-drain", "Drain", max_n=q(tier, 6, 8), random=q(tier, 2000, 30000), extra={"recipes": q(tier, 4, 8), "adaptors": 0}),
+        hist_job("hist-drain", "both", "drainclear,bulk-small", q(tier, 200_000, 4_000_000)),
+        miri_job("miri-drain", "iters", {"which": "Drain", "max_n": q(tier, 2, 3), "random": q(tier, 3, 20), "max_size": 10, "adaptors": 0, "recipes": 1, "nshards": q(tier, 6, 12)}, shards=q(tier, 6, 12), leaks_ok=True),
+    ],
+    "floors": floors(
+        floor_stat("iters-drain", ["twin_ops"], 5000, "fresh-twin operations"),
+        floor_stat("iters-drain", ["ledger_checks"], 2000, "ledger checks"),
+        floor_ops("hist-drain", ["drain", "clear"], 2000),
+        floor_stat("miri-drain", ["iter_cases"], 60, "drain cases under Miri"),
+    ),
+}
+PLANS["C17"] = {
+    "level": "exploration",
+    "rule": "lock-step twin: a generated history with capacity calls (with_capacity*, reserve, reserve_exact, try_reserve*, shrink_to_fit; amounts 0..1000 and near usize::MAX) and the "
+    "same history with every capacity call removed must return identical values step by step; capacity post-conditions after every call; allocation-failure injection in the "
+    "guarded-allocator binary: during try_reserve* the j-th allocation, or every allocation >= 1 MiB for requests of 2^32..2^50, is refused, or the request overflows; the call "
+    "must return (never panic / abort), leave tables and contents untouched and the queue must continue in lock step with its model; distinct as in the history rule + one per injection",
+    "assumptions": ASSUME + ["a reservation may succeed after a refused over-allocation (indexmap retries with the exact amount)"],
+    "jobs": lambda tier: [
+        Job("cap-twins", "ubcheck", "cap", {"twins": q(tier, 250, 5000)}, shards=NPROC, binary="worker_alloc"),
+        Job("cap-inject", "ubcheck", "cap", {"twins": 0, "inject": q(tier, 3000, 60_000)}, shards=8, binary="worker_alloc"),
+        hist_job("hist-capacity", "both", "capacity", q(tier, 100_000, 2_000_000), shards=8),
+    ],
+    "floors": floors(
+        floor_stat("cap-twins", ["capacity_calls_in_histories"], 5000, "capacity calls inside twin histories"),
+        floor_stat("cap-inject", ["injections_returning_err"], 2000, "injected failures answered with Err"),
+        floor_stat("cap-inject", ["overflowing_requests"], 500, "overflowing requests"),
+    ),
+}
+PLANS["C18"] = {
+    "level": "exploration",
+    "rule": "each generated history (explicit operation list, a third of them tie-free) is executed under six BuildHashers - RandomState (fresh keys), BuildHasherDefault<DefaultHasher>, "
+    "BuildHasherDefault<XxHash64> through with_hasher, hashbrown's DefaultHashBuilder, a 4-bucket hasher and an all-colliding hasher - each run under all per-step monitors; return "
+    "values are compared step by step against the reference run (a difference explained by the choice among equal priorities ends the comparison of that pair); a monitor firing "
+    "under one hasher but not under the reference is a violation; distinct as in the history rule",
+    "assumptions": ASSUME + ["'all BuildHashers' is represented by six, including the degenerate ones"],
+    "jobs": lambda tier: [
+        Job("hashers", "ubcheck", "hashers", {"histories": q(tier, 120, 4000)}, shards=NPROC),
+        hist_job("hist-degenerate", "both", "churn,churn-single,bulk-small,growth-ties", q(tier, 60_000, 1_000_000), hashers="const,low2,xx,brown", shards=8),
+    ],
+    "floors": floors(floor_stat("hashers", ["return_values_compared_across_hashers"], 100_000, "return values compared across hashers"), floor_stat("hashers", ["runs_by_hasher", "const"], 500, "runs under the all-colliding hasher")),
 }
